@@ -9,7 +9,7 @@
    show that the code as found violates the statement. *)
 From Coq Require Import List NArith ZArith Bool.
 From SqfsV Require Import Gen.Constants Base.Bytes C10.GenC10 C10.MetaModel C10.MetaProofs
-     C10.ClientModel C10.ClientProofs C10.DataModel C10.DataProofs C10.ApiModel C10.ApiProofs.
+     C10.ClientModel C10.ClientProofs C10.DataModel C10.DataProofs C10.ApiModel C10.ApiProofs C10.AgreeProofs.
 Import ListNotations.
 Local Open Scope N_scope.
 
@@ -202,6 +202,55 @@ Example ex_data_fragment :
     [RUnit (Ok tt); RBytes (Ok [3;4; 0;0;0;0; 8;9]); RBytes (Ok [8;9]); RBytes (Ok [0;0;0;0]);
      RStream (Ok [1;2;3;4; 0;0;0;0; 8;9]) (mkStream 0 4 [] 0 1 [] 0)].
 Proof. vm_compute. reflexivity. Qed.
+
+(* ---- the alternative file-data APIs agree ----
+   For a file laid out the way the library writes files ([wf_file]: consecutive blocks,
+   each sparse, stored or compressed, all full except possibly the last; a tail in a
+   fragment block only when all blocks are full), after ANY history of the reader:
+   stream == positional read == blocks ++ fragment.  Hypotheses: a successful read_at
+   returns as many bytes as asked for (read_at_len: every image), and (inside wf_file,
+   constructor up_packed) a compressed block unpacks to the same bytes whatever output
+   space >= its size the decompressor is offered. *)
+Theorem api_agree :
+  forall (uncompress : list N -> N -> uresult) (file : N -> N -> rd_res) (fsize : N) (bs : N)
+         (ops : list dop) (f : finode) (cs : list (list N)) (tail : list N),
+  0 < bs ->
+  (forall off n b, file off n = RdOk b -> len b = n) ->
+  let d := snd (drun uncompress file fsize bs true dr_create ops) in
+  wf_file uncompress file bs (d_tbl d) f cs tail ->
+  let content := concat cs ++ tail in
+  fst (api_read uncompress file bs true d f 0 (f_size f)) = Ok content /\
+  (forall n, f_size f <= n -> fst (fst (stream_read uncompress file bs d (stream_create f) n)) = Ok content) /\
+  (forall i, (i < length cs)%nat -> api_get_block uncompress file bs f (N.of_nat i) = Ok (nth i cs [])) /\
+  fst (api_get_fragment uncompress file bs d f) = Ok tail.
+Proof.
+  intros u file fsize bs ops f cs tail BP FL d W content.
+  pose proof (data_cache_coherent_l u file fsize bs ops) as C. fold d in C.
+  split; [apply (agree_read u file bs BP (d_tbl d)); auto|].
+  split; [intros n Hn; apply (agree_stream u file bs BP (d_tbl d)); auto|].
+  split; [intros i Hi; apply (agree_get_block u file bs BP (d_tbl d) f cs tail); auto|].
+  apply (agree_get_fragment u file bs BP (d_tbl d) f cs tail); auto.
+Qed.
+Print Assumptions api_agree.
+
+(* non-vacuity: frag_file (one stored block, one sparse block, tail in fragment 0) is well formed *)
+Example ex_wf_file :
+  wf_file no_codec (read_at frag_img) 4
+          (d_tbl (snd (drun no_codec (read_at frag_img) (len frag_img) 4 true dr_create [DLoad frag_args])))
+          frag_file [[1;2;3;4]; [0;0;0;0]] [8;9].
+Proof.
+  constructor.
+  - cbn [layout frag_file f_start f_blocks].
+    split; [apply up_stored; reflexivity|]. split; [reflexivity|]. split; [vm_compute; discriminate|].
+    split; [reflexivity|]. split; [reflexivity|].
+    split; [apply up_sparse; reflexivity|]. split; [reflexivity|]. split; [vm_compute; discriminate|].
+    split; [intro H; contradiction|]. split; [reflexivity|exact I].
+  - reflexivity.
+  - reflexivity.
+  - right. split; [repeat constructor|]. split; [reflexivity|]. split; [reflexivity|].
+    exists [7;8;9;0], 4. split; [vm_compute; reflexivity|]. split; [vm_compute; discriminate|].
+    split; [vm_compute; discriminate|reflexivity].
+Qed.
 
 (* ================= the metadata API as clients of the meta reader =================
    read_inode.c, readdir.c / dir_reader.c (flags = 0), xattr_reader.c, read_table.c.
